@@ -1,4 +1,5 @@
 import Driver.Points
 import Driver.Misc
 import Driver.Server
+import Driver.Life
 import Driver.Main
